@@ -77,6 +77,15 @@ func init() {
 		p.choices = append(p.choices, k)
 		return p.C.Const(64, uint64(k))
 	}
+	harnessAPI["vAnd"] = func(t *Task, fn *ssa.Function, args []Value) Value {
+		return t.p.C.And(args[0].(*Term), args[1].(*Term))
+	}
+	harnessAPI["vOr"] = func(t *Task, fn *ssa.Function, args []Value) Value {
+		return t.p.C.Or(args[0].(*Term), args[1].(*Term))
+	}
+	harnessAPI["vImplies"] = func(t *Task, fn *ssa.Function, args []Value) Value {
+		return t.p.C.Implies(args[0].(*Term), args[1].(*Term))
+	}
 	harnessAPI["vAssume"] = func(t *Task, fn *ssa.Function, args []Value) Value {
 		t.p.Assume(args[0].(*Term))
 		return nil
